@@ -559,8 +559,8 @@ def run(ctx):
     from qv.driver import Driver
     drv = Driver("C06")
     try:
-        run_exact(ctx, drv, ctx.n(1500, 15000))
-        run_float(ctx, drv, ctx.n(400, 4000))
+        run_exact(ctx, drv, ctx.n(1500, 40000))
+        run_float(ctx, drv, ctx.n(400, 10000))
         if not ctx.search_mode:
             run_indexmap(ctx, drv, 64 if ctx.thorough() else 16)
     finally:
